@@ -444,7 +444,7 @@ Section Frames.
     | FGen GExc => ok s (w_unw (w_stack th (FGen (GCatchCas e) :: r)) None) ch silent
     | FPool tk PFin => ok s (w_unw (w_stack th (FPool tk (PCatchCas e) :: r)) None) ch silent
     | _ =>
-        (* FMain / FWorker only call wrapped tasks and generator functors, which catch everything (since /repo f2764c3 the generator
+        (* FMain / FWorker only call wrapped tasks and generator functors, which catch everything (since /repo eb2d079 the generator
            functor records its exception itself; before, an instance run inline inside execute() let it escape: [escaping] below
            characterises that state, which the model would stop at); the other program points never have a throwing callee
            above them. *)
